@@ -1,0 +1,24 @@
+//go:build !verif
+
+package verifhook
+
+// Enabled reports whether the instrumentation is compiled in.
+const Enabled = false
+
+// Yield marks a point at which the calling goroutine holds no lock and may be descheduled.
+func Yield(site string) {}
+
+// Spin marks one iteration of a busy-wait loop.
+func Spin(site string) {}
+
+// Note reports an event (no scheduling effect).
+func Note(event string) {}
+
+// Fault lets the harness inject an error before the operation named by site.
+func Fault(site string) error { return nil }
+
+// FSEvent reports a completed file-system operation.
+func FSEvent(kind, path string, b []byte) {}
+
+// WrapFile lets the harness observe and fault operations on f.
+func WrapFile(path string, f File) File { return f }
